@@ -94,8 +94,12 @@ class IdentityEliminationPass(ir.passes.InPlacePass):
         output_is_graph_output = output_value.is_graph_output()
 
         # Case 3: Both node output is graph output and node input is graph input or initializer - keep the node
+        # The node is also kept when the input is defined in an outer scope: a subgraph
+        # cannot return an outer-scope value directly.
         if output_is_graph_output and (
-            input_value.is_graph_input() or input_value.is_initializer()
+            input_value.is_graph_input()
+            or input_value.is_initializer()
+            or input_value.graph is not graph_like
         ):
             return False
 
